@@ -80,6 +80,9 @@ def finish(eng, prop, args, seed, results, wall):
                 by_backend[ob["backend"]] = by_backend.get(ob["backend"], 0) + 1
             elif ob["status"] == "sat":
                 violations.append(ob)
+            elif (ob.get("replay") or {}).get("failed_on_real_code"):
+                # solver undecided, but the enumerative stand-in found a failing input on the real code
+                violations.append(ob)
             else:
                 undecided.append({"oid": ob["oid"], "why": f"solver: {ob['status']} {ob.get('reason', '')}"})
             if "smt_head" in ob and len(samples) < 4:
